@@ -3,7 +3,6 @@ package props
 import (
 	"fmt"
 	"go/ast"
-	"go/constant"
 	"go/token"
 	"go/types"
 	"sort"
@@ -52,62 +51,73 @@ func findFreshHelpers(p *core.Program) map[*types.Func]*freshHelper {
 		if sig.Results().Len() != 1 || !isCollectionType(sig.Results().At(0).Type()) {
 			continue
 		}
-		env := &eng.AffEnv{Info: info, Vars: map[types.Object]eng.Aff{}}
+		bind := map[types.Object]eng.Aff{}
 		k := 0
 		for _, f := range fd.Type.Params.List {
 			for _, n := range f.Names {
-				env.Vars[info.Defs[n]] = eng.AffSym(fmt.Sprintf("p%d", k))
+				if b, ok := info.TypeOf(n).Underlying().(*types.Basic); ok && b.Info()&types.IsInteger != 0 {
+					bind[info.Defs[n]] = eng.AffSym(fmt.Sprintf("p%d", k))
+				}
 				k++
 			}
 		}
-		var h *freshHelper
-		var madeVar types.Object
-		clampOn := map[string]bool{}
-		returnsMade := false
+		// pivot: the length of the first make, read through the top-level definitions
+		env := &eng.AffEnv{Info: info, Vars: map[types.Object]eng.Aff{}}
+		for o, a := range bind {
+			env.Vars[o] = a
+		}
 		for _, st := range fd.Body.List {
-			switch s := st.(type) {
-			case *ast.AssignStmt:
-				if len(s.Lhs) != 1 || len(s.Rhs) != 1 {
-					continue
-				}
-				id, ok := s.Lhs[0].(*ast.Ident)
-				if !ok {
-					continue
-				}
-				if c, ok := s.Rhs[0].(*ast.CallExpr); ok {
-					if mid, ok := c.Fun.(*ast.Ident); ok && mid.Name == "make" && len(c.Args) >= 2 && isCollectionType(info.TypeOf(c.Args[0])) {
-						if a, ok := env.Eval(c.Args[1]); ok {
-							h = &freshHelper{fn: fn, length: a, clamped: clampOn[a.String()]}
-							madeVar = objOf(info, id)
+			if as, ok := st.(*ast.AssignStmt); ok && len(as.Lhs) == 1 && len(as.Rhs) == 1 && as.Tok == token.DEFINE {
+				if id, ok := as.Lhs[0].(*ast.Ident); ok {
+					if _, isCall := eng.Unparen(as.Rhs[0]).(*ast.CallExpr); !isCall {
+						if a, ok := env.Eval(as.Rhs[0]); ok {
+							env.Vars[info.Defs[id]] = a
 						}
-						continue
-					}
-				}
-				if a, ok := env.Eval(s.Rhs[0]); ok {
-					env.Vars[objOf(info, id)] = a
-				}
-			case *ast.IfStmt:
-				// if size <= 0 { return <empty> }
-				if b, ok := eng.Unparen(s.Cond).(*ast.BinaryExpr); ok && s.Else == nil && blockLeaves(s.Body) {
-					if l, ok := env.Eval(b.X); ok {
-						if tv, ok := info.Types[b.Y]; ok && tv.Value != nil {
-							v, _ := constant.Int64Val(tv.Value)
-							if (b.Op == token.LEQ && v == 0) || (b.Op == token.LSS && v == 1) {
-								clampOn[l.String()] = true
-							}
-						}
-					}
-				}
-			case *ast.ReturnStmt:
-				if len(s.Results) == 1 {
-					if id, ok := eng.Unparen(s.Results[0]).(*ast.Ident); ok && madeVar != nil && info.Uses[id] == madeVar {
-						returnsMade = true
 					}
 				}
 			}
 		}
-		if h != nil && returnsMade {
-			out[fn] = h
+		var pivot *eng.Aff
+		ast.Inspect(fd.Body, func(n ast.Node) bool {
+			if c, ok := n.(*ast.CallExpr); ok && pivot == nil && isBuiltinCall(info, c, "make") && len(c.Args) >= 2 && isCollectionType(info.TypeOf(c.Args[0])) {
+				if a, ok := env.Eval(c.Args[1]); ok && !a.IsConst() {
+					pivot = &a
+				}
+			}
+			return true
+		})
+		if pivot == nil {
+			continue
+		}
+		sink := func(st ast.Stmt) (ast.Expr, bool) {
+			if rs, ok := st.(*ast.ReturnStmt); ok && len(rs.Results) == 1 {
+				return rs.Results[0], true
+			}
+			return nil, false
+		}
+		run := func(region int) *eng.BuildSummary {
+			return (&eng.SliceBuild{Info: info, Sink: sink, Pivot: *pivot, Region: region}).Run(fd.Body.List, bind)
+		}
+		pos, neg := run(1), run(-1)
+		if len(pos.Problems)+len(neg.Problems) > 0 || len(pos.Results) == 0 || pos.Skips+neg.Skips > 0 {
+			continue
+		}
+		okPos, negZero, negSame := true, true, true
+		for _, r := range pos.Results {
+			if !r.LenOK || !r.Len.Equal(*pivot) {
+				okPos = false
+			}
+		}
+		for _, r := range neg.Results {
+			if !r.LenOK || !r.Len.IsConst() || r.Len.C != 0 {
+				negZero = false
+			}
+			if !r.LenOK || !r.Len.Equal(*pivot) {
+				negSame = false
+			}
+		}
+		if okPos && (negZero || negSame) {
+			out[fn] = &freshHelper{fn: fn, length: *pivot, clamped: negZero}
 		}
 	}
 	return out
@@ -260,8 +270,42 @@ func runC06(p *core.Program, r *core.Report) {
 		var checks []check
 		nUpdates := 0
 		fresh := 0
-		for _, st := range h.Clause.Body {
+		// top-level statements of the handler, with calls of non-primitive *VM methods (an
+		// extracted accounting helper) replaced by the callee's top-level statements, its
+		// parameters bound to the affine value of the arguments (depth ≤ 3)
+		var topLevel func(list []ast.Stmt, depth int) []ast.Stmt
+		topLevel = func(list []ast.Stmt, depth int) []ast.Stmt {
+			var out []ast.Stmt
+			for _, st := range list {
+				if es, ok := st.(*ast.ExprStmt); ok && depth < 3 {
+					if c, ok := es.X.(*ast.CallExpr); ok {
+						if fn := eng.CalleeOf(info, c); fn != nil && vm.Prims[fn] == "" {
+							if fd := vmMethodDecl(p, vm, fn); fd != nil {
+								out = append(out, &inlineEnter{call: c, fd: fd})
+								out = append(out, topLevel(fd.Body.List, depth+1)...)
+								continue
+							}
+						}
+					}
+				}
+				out = append(out, st)
+			}
+			return out
+		}
+		for _, st := range topLevel(h.Clause.Body, 0) {
 			switch s := st.(type) {
+			case *inlineEnter:
+				k := 0
+				for _, f := range s.fd.Type.Params.List {
+					for _, nm := range f.Names {
+						if k < len(s.call.Args) {
+							if a, ok := env.Eval(s.call.Args[k]); ok {
+								env.Vars[info.Defs[nm]] = a
+							}
+						}
+						k++
+					}
+				}
 			case *ast.AssignStmt:
 				if len(s.Lhs) == 1 && len(s.Rhs) == 1 && isMem(s.Lhs[0]) {
 					var amt eng.Aff
@@ -474,13 +518,7 @@ func runC06(p *core.Program, r *core.Report) {
 
 	// R6.4 plumbing
 	writes := fieldWrites(p, vm)
-	prologueEnd := vm.Switch.Pos()
-	for _, st := range vm.Run.Body.List {
-		if st.Pos() <= vm.Switch.Pos() && vm.Switch.End() <= st.End() {
-			prologueEnd = st.Pos()
-		}
-	}
-	inPrologue := func(pos token.Pos) bool { return pos >= vm.Run.Body.Pos() && pos < prologueEnd }
+	inPrologue := prologueRegion(p, vm)
 	for i, pos := range writes[memF] {
 		key := fmt.Sprintf("vm.VM.memory/write#%d", i+1)
 		r.Check(counted[pos] || inPrologue(pos), "R6.4", key, p.Pos(pos), "a counted update or the prologue reset", "the allocation counter is written outside the counted updates and the prologue reset")
@@ -491,16 +529,28 @@ func runC06(p *core.Program, r *core.Report) {
 		// value: the package variable
 		if okL {
 			okL = false
-			ast.Inspect(vm.Run.Body, func(n ast.Node) bool {
-				if as, ok := n.(*ast.AssignStmt); ok && len(as.Lhs) == 1 && as.Lhs[0].Pos() == pos && len(as.Rhs) == 1 {
-					if id, ok := eng.Unparen(as.Rhs[0]).(*ast.Ident); ok {
-						if v, ok := info.Uses[id].(*types.Var); ok && v.Parent() == p.Pkg("vm").Types.Scope() {
-							okL = true
+			for _, fd := range p.FuncDecls("vm") {
+				if fd.Body == nil {
+					continue
+				}
+				ast.Inspect(fd.Body, func(n ast.Node) bool {
+					as, ok := n.(*ast.AssignStmt)
+					if !ok || len(as.Lhs) != len(as.Rhs) || as.Tok != token.ASSIGN {
+						return true
+					}
+					for k, l := range as.Lhs {
+						if l.Pos() != pos {
+							continue
+						}
+						if id, ok := eng.Unparen(as.Rhs[k]).(*ast.Ident); ok {
+							if v, ok := info.Uses[id].(*types.Var); ok && v.Parent() == p.Pkg("vm").Types.Scope() {
+								okL = true
+							}
 						}
 					}
-				}
-				return true
-			})
+					return true
+				})
+			}
 		}
 		r.Check(okL, "R6.4", key, p.Pos(pos), "assigned in the prologue from the package-level budget variable", "the limit is not (only) assigned in Run's prologue from the package-level budget")
 	}
@@ -549,6 +599,97 @@ func runC06(p *core.Program, r *core.Report) {
 	r.Floor("R6.3", 7)
 	r.Floor("R6.4", 4)
 	r.Floor("R6.5", 1)
+}
+
+// inlineEnter marks, in a flattened statement list, the start of an inlined helper body.
+type inlineEnter struct {
+	ast.EmptyStmt
+	call *ast.CallExpr
+	fd   *ast.FuncDecl
+}
+
+// vmMethodDecl: the declaration of a method of *VM (with a body) other than Run.
+func vmMethodDecl(p *core.Program, vm *eng.VMModel, fn *types.Func) *ast.FuncDecl {
+	info := p.Pkg("vm").TypesInfo
+	for _, fd := range p.FuncDecls("vm") {
+		if fd.Body != nil && fd != vm.Run && core.RecvName(fd) == vm.VMType.Obj().Name() && info.Defs[fd.Name] == types.Object(fn) {
+			return fd
+		}
+	}
+	return nil
+}
+
+// prologueRegion: positions that execute only in the prologue of Run — Run's statements
+// before the dispatch loop, and the bodies of *VM methods all of whose call sites (at least
+// one) are themselves in the prologue region.
+func prologueRegion(p *core.Program, vm *eng.VMModel) func(token.Pos) bool {
+	prologueEnd := vm.Switch.Pos()
+	for _, st := range vm.Run.Body.List {
+		if st.Pos() <= vm.Switch.Pos() && vm.Switch.End() <= st.End() {
+			prologueEnd = st.Pos()
+		}
+	}
+	type span struct{ from, to token.Pos }
+	spans := []span{{vm.Run.Body.Pos(), prologueEnd}}
+	in := func(pos token.Pos) bool {
+		for _, s := range spans {
+			if pos >= s.from && pos < s.to {
+				return true
+			}
+		}
+		return false
+	}
+	for round := 0; round < 3; round++ {
+		for _, fd := range p.FuncDecls("vm") {
+			if fd.Body == nil || fd == vm.Run || core.RecvName(fd) != vm.VMType.Obj().Name() || in(fd.Body.Pos()) {
+				continue
+			}
+			fn, _ := p.Pkg("vm").TypesInfo.Defs[fd.Name].(*types.Func)
+			if fn == nil || fn.Exported() {
+				continue
+			}
+			all, n := true, 0
+			for _, pos := range callSitesOnly(p, fn) {
+				n++
+				if !in(pos) {
+					all = false
+				}
+			}
+			if all && n > 0 {
+				spans = append(spans, span{fd.Body.Pos(), fd.Body.End()})
+			}
+		}
+	}
+	return in
+}
+
+// callSitesOnly: positions of the static calls of fn; NoPos for a use that is not a call.
+func callSitesOnly(p *core.Program, fn *types.Func) []token.Pos {
+	var out []token.Pos
+	for _, pk := range p.ByRel {
+		for _, f := range pk.Syntax {
+			called := map[*ast.Ident]bool{}
+			ast.Inspect(f, func(n ast.Node) bool {
+				if c, ok := n.(*ast.CallExpr); ok && eng.CalleeOf(pk.TypesInfo, c) == fn {
+					out = append(out, c.Pos())
+					switch x := eng.Unparen(c.Fun).(type) {
+					case *ast.SelectorExpr:
+						called[x.Sel] = true
+					case *ast.Ident:
+						called[x] = true
+					}
+				}
+				return true
+			})
+			ast.Inspect(f, func(n ast.Node) bool {
+				if id, ok := n.(*ast.Ident); ok && pk.TypesInfo.Uses[id] == types.Object(fn) && !called[id] {
+					out = append(out, token.NoPos)
+				}
+				return true
+			})
+		}
+	}
+	return out
 }
 
 func bodyPanicsBlock(b *ast.BlockStmt) bool {
@@ -620,6 +761,8 @@ func c06Controls() []core.Mutant {
 		{Name: "OpArray counts one element too few", File: "vm/vm.go", Old: "\t\t\tvm.push(array)\n\t\t\tvm.memory += size\n", New: "\t\t\tvm.push(array)\n\t\t\tvm.memory += size - 1\n", Rule: "R6.1", Construct: "OpArray"},
 		{Name: "counter reset by OpEnd", File: "vm/vm.go", Old: "\t\t\tvm.scopes = vm.scopes[:len(vm.scopes)-1]\n", New: "\t\t\tvm.scopes = vm.scopes[:len(vm.scopes)-1]\n\t\t\tvm.memory = 0\n", Rule: "R6.4", Construct: "memory"},
 		{Name: "compile-time range cap removed", File: "optimizer/const_range.go", Old: "\t\t\t\t\tif size > 1e6 {\n\t\t\t\t\t\treturn\n\t\t\t\t\t}\n", New: "", Rule: "R6.5", Construct: "make"},
+		{Name: "refactor: accounting extracted into a method used by both builders", File: "vm/vm.go", Old: "\t\t\tvm.push(array)\n\t\t\tvm.memory += size\n\t\t\tif vm.memory >= vm.limit {\n\t\t\t\tpanic(\"memory budget exceeded\")\n\t\t\t}\n", New: "\t\t\tvm.push(array)\n\t\t\tvm.account(size)\n", Edits: [][2]string{{"\t\t\tvm.push(m)\n\t\t\tvm.memory += size\n\t\t\tif vm.memory >= vm.limit {\n\t\t\t\tpanic(\"memory budget exceeded\")\n\t\t\t}\n", "\t\t\tvm.push(m)\n\t\t\tvm.account(size)\n"}, {"func (vm *VM) push(value interface{}) {", "func (vm *VM) account(n int) {\n\tvm.memory += n\n\tif vm.memory >= vm.limit {\n\t\tpanic(\"memory budget exceeded\")\n\t}\n}\n\nfunc (vm *VM) push(value interface{}) {"}}, Silent: true},
+		{Name: "refactor: prologue assigns counter and limit in one statement", File: "vm/vm.go", Old: "\tvm.limit = MemoryBudget\n\tvm.memory = 0\n", New: "\tvm.memory, vm.limit = 0, MemoryBudget\n", Silent: true},
 		{Name: "refactor: OpArray check before push", File: "vm/vm.go", Old: "\t\t\tvm.push(array)\n\t\t\tvm.memory += size\n\t\t\tif vm.memory >= vm.limit {\n\t\t\t\tpanic(\"memory budget exceeded\")\n\t\t\t}\n", New: "\t\t\tvm.memory += size\n\t\t\tif vm.memory >= vm.limit {\n\t\t\t\tpanic(\"memory budget exceeded\")\n\t\t\t}\n\t\t\tvm.push(array)\n", Silent: true},
 	}
 }
